@@ -178,6 +178,10 @@ class World:
 
     def op_new_cells(self, op):
         src = op.get("src")
+        if op.get("autoname") and src and src.lstrip().startswith("def %s(" % op["name"]):
+            # no explicit name: the cells is named after its def formula
+            self.space(op["space"]).new_cells(formula=src, is_cached=op.get("is_cached", True))
+            return
         self.space(op["space"]).new_cells(op["name"], formula=src, is_cached=op.get("is_cached", True))
 
     def op_del_cells(self, op):
